@@ -6,19 +6,9 @@ From Verif Require Import Proofs.C19_rt Proofs.C19_crash Proofs.C19_api Proofs.C
 From Coq Require Import ZifyBool.
 Ltac Zify.zify_post_hook ::= Z.div_mod_to_equations.
 
-(* does Save write at all: there is no .fav yet, or the tree in memory is newer than the file (rel > 0) *)
-Definition writes (rel : Z) (old : option (list Z)) : bool :=
-  match old with None => true | Some _ => 0 <? rel end.
+(* writes / save_syscalls (does Save write at all; the system calls Model.C19.save issues) are in Model/C19.v *)
 (* the user's home before the save: only .fav matters *)
 Definition disk0 (old : option (list Z)) : fs := match old with Some c => [(FN_FAV, c)] | None => [] end.
-(* the system calls Model.C19.save issues (the list it hands to Fs.exec), none if the mtime gate says "not newer" *)
-Definition save_syscalls (rel : Z) (old : option (list Z)) (f : fav) : list op :=
-  match cleanup f with
-  | Ok f1 => if writes rel old
-             then match file_chunks f1 with Ok cs => save_ops FN_TMP FN_FAV (map snd cs) | _ => [] end
-             else []
-  | _ => []
-  end.
 
 Lemma file_chunks_of_image f img : file_image f = Ok img -> exists cs, file_chunks f = Ok cs /\ bytes_of cs = img.
 Proof.
@@ -49,7 +39,7 @@ Proof.
   split.
   - unfold save. rewrite Ec, Ecs. cbv zeta. rewrite Ex, El.
     destruct old as [c|]; [|reflexivity]. cbn [writes] in Hwr. rewrite Hwr. reflexivity.
-  - unfold save_syscalls. rewrite Ec, Hwr, Ecs. apply Ex.
+  - unfold save_syscalls, save_tmp_name. rewrite Ec, Hwr, Ecs. apply Ex.
 Qed.
 
 (* the whole save over an existing, well-formed .fav *)
@@ -74,13 +64,13 @@ Proof.
   - destruct (save_written z f rel (Some c) Hl Erel) as (f1' & Ec' & _ & Es & Ex).
     rewrite Ec in Ec'. injection Ec' as <-.
     split; [|split; [exact Es|rewrite Es; cbn [image_of]; symmetry; exact Ex]].
-    intros n. cbv zeta. unfold save_syscalls. rewrite Ec. cbn [writes]. rewrite Erel, Ecs.
+    intros n. cbv zeta. unfold save_syscalls, save_tmp_name. rewrite Ec. cbn [writes]. rewrite Erel, Ecs.
     destruct (crash_atomic f1 cs [(FN_FAV, c)] n Ecs) as [H|[_ H]].
     + left. split; [rewrite H; exact E0|exact Elo].
     + right. split; [lia|]. rewrite <- Eb. split; [exact H|]. rewrite Eb. exact El1.
   - assert (Es : save rel (Some c) f = if rel =? 0 then SOk (Some c) f1 else SOk (Some c) (renumber fo)).
     { unfold save. rewrite Ec. cbv zeta. rewrite Erel. destruct (rel =? 0); [reflexivity|]. rewrite Elo. reflexivity. }
-    assert (En : save_syscalls rel (Some c) f = []) by (unfold save_syscalls; rewrite Ec; cbn [writes]; rewrite Erel; reflexivity).
+    assert (En : save_syscalls rel (Some c) f = []) by (unfold save_syscalls, save_tmp_name; rewrite Ec; cbn [writes]; rewrite Erel; reflexivity).
     split; [|split; [exact Es|]].
     + intros n. cbv zeta. rewrite En. left. destruct n; cbn [firstn exec fold_left]; (split; [exact E0|exact Elo]).
     + rewrite Es, En. destruct (rel =? 0); reflexivity.
@@ -100,7 +90,7 @@ Proof.
   destruct (file_chunks_of_image f1 _ (format f1 Hw1)) as (cs & Ecs & Eb).
   exists f1. split; [exact Ec|]. split; [exact Hw1|].
   split; [|split; [exact Es|rewrite Es; cbn [image_of]; symmetry; exact Ex]].
-  intros n. cbv zeta. unfold save_syscalls. rewrite Ec. cbn [writes]. rewrite Ecs.
+  intros n. cbv zeta. unfold save_syscalls, save_tmp_name. rewrite Ec. cbn [writes]. rewrite Ecs.
   destruct (crash_atomic f1 cs [] n Ecs) as [H|[_ H]].
   - left. rewrite H. reflexivity.
   - right. rewrite <- Eb. split; [exact H|]. rewrite Eb. exact El1.
